@@ -470,6 +470,9 @@ func (h *verifC42) op(op string) string {
 	switch {
 	case strings.HasPrefix(op, "dpc"), strings.HasPrefix(op, "upc"), strings.HasPrefix(op, "xpc"):
 		i := verifIdx(op[3:])
+		if op[3:] == "L" { // the newest message on the link
+			i = len(h.netPC) - 1
+		}
 		if i < 0 || i >= len(h.netPC) {
 			return "-"
 		}
@@ -484,6 +487,9 @@ func (h *verifC42) op(op string) string {
 		return h.trace('C')
 	case strings.HasPrefix(op, "dcp"), strings.HasPrefix(op, "ucp"), strings.HasPrefix(op, "xcp"):
 		i := verifIdx(op[3:])
+		if op[3:] == "L" {
+			i = len(h.netCP) - 1
+		}
 		if i < 0 || i >= len(h.netCP) {
 			return "-"
 		}
